@@ -418,6 +418,7 @@ int main(int argc, char **argv)
         alarm(0);
         w.s += "}\n";
         fputs(w.s.c_str(), g_trace);
+        fflush(g_trace);            // a sanitizer abort in the next command must not lose the records written so far
     }
     if(dev) opn2_close(dev);
     fprintf(g_trace, "{\"e\":\"End\"}\n");
